@@ -18,6 +18,7 @@ fn value(bytes: &[u8], big: bool) -> u128 {
     v
 }
 
+fn deep() -> bool { std::env::var("VERIF_TIER").map(|t| t == "thorough").unwrap_or(false) } // thorough tier: wider bounds
 fn main() {
     std::panic::set_hook(Box::new(|_| {}));
     let mut found = 0usize;
@@ -43,7 +44,7 @@ fn main() {
         let total = n.pow(len as u32);
         for code in 0..total {
             // thin out the 3-write sequences: keep 1 in 5 (deterministic)
-            if len == 3 && code % 5 != 0 { continue; }
+            if len == 3 && !deep() && code % 5 != 0 { continue; }
             let mut idx = code;
             let mut hist = vec![];
             for _ in 0..len { hist.push(writes[idx % n]); idx /= n; }
